@@ -371,9 +371,13 @@ var reviewedLoops = map[string]reviewedLoop{
 
 func checkC01(c *Ctx) {
 	p, r := c.P, c.R
-	r.Explanation = "Decided statically (necessary conditions of 'never crashes, spins or deadlocks'): the main loop blocks in WaitAvailableKeys on every iteration; every natural loop in the module (234 on the pinned tree) has a recognised termination variant — counted (P1), shrinking slice (P2), blocking read per iteration (P3), Scanner (P4), range (P5) — or is in a reviewed table with its ranking argument and, where possible, a structural condition re-verified each run; call-graph cycles among module functions match a reviewed table with bound arguments; no explicit panic is reachable; every dynamic call of a func value loaded from a struct field or map is dominated by a non-nil test; no value that a function compares with nil is dereferenced where it may be nil (contradiction rule, whole module); buffers obtained from a terminal read or key channel are indexed only under a length check; end-of-input / read errors leave the wait loop and reach Readline's caller; channel sends on the input path cannot block forever; execute ends in the cursor clamp. NOT decided: full panic-freedom of the ~250 commands — the 1 766 index/slice sites depend on heap invariants relating cursor, selection and line across calls, which no sound analysis in reach proves."
+	r.Explanation = "Decided statically (necessary conditions of 'never crashes, spins or deadlocks'): the main loop blocks in WaitAvailableKeys on every iteration; every natural loop in the module (234 on the pinned tree) has a recognised termination variant — counted (P1), shrinking slice (P2), blocking read per iteration (P3), Scanner (P4), range (P5) — or is in a reviewed table with its ranking argument and, where possible, a structural condition re-verified each run; call-graph cycles among module functions match a reviewed table with bound arguments; no explicit panic is reachable; every dynamic call of a func value loaded from a struct field or map is dominated by a non-nil test; no value that a function compares with nil is dereferenced where it may be nil (contradiction rule, whole module); buffers obtained from a terminal read or key channel are indexed only under a length check; end-of-input / read errors leave the wait loop and reach Readline's caller; channel sends on the input path cannot block forever; execute ends in the cursor clamp. every index and slice bound of the commands (root package) and of the editing primitives (internal/core) is proved in range — non-negative (C01.nonneg) and below the length / ordered (C01.bounds) — by the zone-domain prover with heap length terms, or is listed in a reviewed table with its reason; the regexp pointer fields that their users test for nil are tested by all of them. NOT decided: bounds in packages completion, history, display, strutil, color; nil dereferences of values that no function compares with nil; panics inside application callbacks."
 	r.Trusted = []string{"go/packages type checker", "go/ssa construction", "VTA call graph over CHA", "reviewed tables in rlcheck/c01.go (loops, recursion, nil-call exemptions)"}
-	r.Assumptions = []string{"application callbacks (Completer, prompt functions, SyntaxHighlighter) terminate and do not panic", "the terminal eventually delivers input or end-of-input"}
+	r.Assumptions = []string{"application callbacks (Completer, prompt functions, SyntaxHighlighter) terminate and do not panic", "the terminal eventually delivers input or end-of-input",
+		"C01.bounds: the cursor and selection stored next to a line in one struct (line/cursor/selection, compLine/compCursor) are built on that line (object-triple assumption; the one known exception, GetBuffer's completed-line triple, is described in DESIGN.md §13)",
+		"C01.bounds: a command runs after the dispatcher matched at least one key, so Keys.Caller() is not empty (MatchedKeys / MatchedPrefix only store non-empty slices)",
+		"C01.bounds / C01.nonneg: the 51 + 37 sites of the reviewed tables in rlcheck/c01_bounds.go hold for the reason written next to each (claims, not proofs)",
+		"machine-integer overflow is not modelled"}
 
 	RL := p.Func(fnReadline)
 	r.Rule("C01.anchors", "K0", "anchored functions resolve", 1)
@@ -587,6 +591,7 @@ func checkC01(c *Ctx) {
 	// ---- post-check shared with C06
 	checkC06Clamps(c)
 	checkC01Nonneg(c)
+	checkNilBelief(c, "C01.nil-belief")
 }
 
 // ---------------- recursion ----------------
@@ -789,6 +794,83 @@ func includeDepthBounded(p *Prog) (bool, string) {
 		if bad != "" {
 			return false, bad + " writes Parser.depth: only the withDepth option of the nested $include parse may set it, otherwise the bound no longer counts nesting levels"
 		}
+	}
+	return true, ""
+}
+
+// includeBudget: the total number of files a parse includes is bounded — the
+// nested Parse call is dominated by a test of a shared counter (*Parser.included)
+// against a constant, the counter is incremented before the call on every path,
+// and the nested parser receives the same counter.
+func includeBudget(p *Prog) (bool, string) {
+	DO := p.Func("(*inputrc.Parser).do")
+	if DO == nil {
+		return false, "(*inputrc.Parser).do not found"
+	}
+	var nested *ssa.Call
+	eachInstr(DO, func(in ssa.Instruction) {
+		if cl, ok := in.(*ssa.Call); ok && calleeName(cl) == "inputrc.Parse" {
+			nested = cl
+		}
+	})
+	if nested == nil {
+		return false, "no nested inputrc.Parse call"
+	}
+	isCounterLoad := func(v ssa.Value) bool {
+		u, ok := v.(*ssa.UnOp)
+		return ok && u.Op == token.MUL && isFieldLoad(u.X, "inputrc.Parser", "included")
+	}
+	bf := blockFacts(DO)
+	guard := false
+	for fc := range factsAt(bf, nested) {
+		rel, ok := relOf(fc.Cond, fc.Val)
+		if !ok || !isCounterLoad(rel.X) {
+			continue
+		}
+		if _, isK := constInt(rel.Y); isK && (rel.Op == token.LSS || rel.Op == token.LEQ) {
+			guard = true
+		}
+	}
+	if !guard {
+		return false, "the nested Parse is not dominated by a `*p.included < constant` test: files that each include several others are parsed once per path through the include graph (exponential work under the depth limit)"
+	}
+	inc := func(in ssa.Instruction) bool {
+		st, ok := in.(*ssa.Store)
+		if !ok || !isFieldLoad(st.Addr, "inputrc.Parser", "included") {
+			return false
+		}
+		bo, ok := st.Val.(*ssa.BinOp)
+		if !ok || bo.Op != token.ADD || !isCounterLoad(bo.X) {
+			return false
+		}
+		k, isK := constInt(bo.Y)
+		return isK && k >= 1
+	}
+	counted := true
+	// every path from the entry to the nested call passes the increment
+	if w := pathAvoiding(DO, nil, func(in ssa.Instruction) bool { return in == ssa.Instruction(nested) }, inc); w != nil {
+		counted = false
+	}
+	if !counted {
+		return false, "a path reaches the nested Parse without counting the inclusion"
+	}
+	// the nested parser shares the counter
+	shared := false
+	eachInstr(DO, func(in ssa.Instruction) {
+		cl, ok := in.(*ssa.Call)
+		if !ok || !inRepo(staticCallee(cl)) || len(cl.Call.Args) != 1 || !isFieldLoad(cl.Call.Args[0], "inputrc.Parser", "included") {
+			return
+		}
+		for _, an := range staticCallee(cl).AnonFuncs {
+			eachInstr(an, func(x ssa.Instruction) {
+				if _, ok := isFieldStore(x, "inputrc.Parser", "included"); ok {
+					shared = true
+				}
+			})
+		}
+	})
+	if !shared {
+		return false, "the nested parser does not receive the counter of the enclosing parse: every level counts from zero"
 	}
 	return true, ""
 }
